@@ -74,12 +74,13 @@ def gen(rng, tier, open_keys):
         big = False
         if counts_len(mn, mx, sig) > 40000:
             # the executable model keeps the counts array as a list: large arrays only in a few short cases
-            if i % 25 != 3:
+            # (its cost grows quadratically: ~1.5 s at 40 000 entries, ~10 s at 100 000, minutes beyond 300 000)
+            if i % (25 if tier == "quick" else 100) != 3:
                 while counts_len(mn, mx, sig) > 40000:
                     mn, mx, sig = gen_shape(rng)
             else:
                 big = True
-                while counts_len(mn, mx, sig) > 600000:
+                while counts_len(mn, mx, sig) > 100000:
                     mn, mx, sig = gen_shape(rng)
         ops, pool, total = [], [], 0
         if i % 10 == 9:      # probe: out-of-range values, no quantiles
